@@ -16,6 +16,10 @@ def mk_spec(tier, variant=0):
     if variant == 0:
         sp = NB.Spec(nloc=2, types=[dict(cap=5, seats=7, limit='sym')], depots=[dict(allowed={0: 'sym'})], trips=[dict(vt=0, limit='sym') for _ in range(3)], maint=1,
                      level='listed', maxdist='sym', paxmax=12, capmax=2)
+    elif variant == 2:
+        # two types, one depot, one trip per type: type-compatibility scripts
+        sp = NB.Spec(nloc=2, types=[dict(cap=5, seats=7, limit=None), dict(cap=11, seats=3, limit=None)], depots=[dict(allowed={0: 'none', 1: 'none'})],
+                     trips=[dict(vt=0), dict(vt=1)], maint=1, level='listed', maxdist='sym', paxmax=12, capmax=2)
     else:
         sp = NB.Spec(nloc=2, types=[dict(cap=5, seats=7, limit='sym'), dict(cap=11, seats=3, limit=None)], depots=[dict(allowed={0: 'sym', 1: 'none'}), dict(allowed={0: 'none', 1: 'absent'})],
                      trips=[dict(vt=0, limit='sym'), dict(vt=0, limit=None), dict(vt=1, limit='sym')], maint=1, level='listed', maxdist='sym', paxmax=12, capmax=2)
@@ -88,7 +92,8 @@ def native_state(net, js):
     return st
 
 # ------------------------------------------------------------------ operation menu (computed from the actual state, so scripts never leave the valid arguments)
-def menu(net, st, tier):
+def menu(net, st, tier, swaps=False):
+    if swaps: return [o for o in swap_menu(net, st) if swaps is True or o[0] in swaps]
     ops = []; nt = len(net.types)
     acts = list(net.trips) + list(net.maint)
     d0 = [d for d in net.depots if not d['overflow']][0]; ovf = net.depots[-1]
@@ -123,6 +128,24 @@ def menu(net, st, tier):
     ops += [('improve_depots',), ('reassign_end_depots_greedily',), ('reassign_end_depots_consistent_with_transitions',), ('recompute_transitions_for',)]
     return ops
 
+def swap_menu(net, st):
+    """the candidates the local-search neighbourhood generates (arguments as in RSSchedParallelNeighborhood)"""
+    ops = []; V = sorted(st['tours']); D = sorted(st['dummies'])
+    for m in net.maint:
+        for v in V: ops.append(('swap_spawn_maint', m, v))
+    for p in D + V:
+        pn = st['tours'][p][1:-1] if p in st['tours'] else st['dummies'][p]
+        segs = [(pn[i], pn[j]) for i in range(len(pn)) for j in range(i, len(pn))]
+        if p in st['tours']: segs.append((pn[0], st['tours'][p][-1]))          # whole tour including the end depot
+        for r in V + D:
+            if r == p: continue
+            for a, b in segs: ops.append(('swap_path_exchange', a, b, p, r))
+    for v in V:
+        for n in [x for x in net.trips if net.info[x]['vt'] == st['vehicles'][v]]: ops.append(('swap_hitch', n, v))
+    for v in V:
+        for n in st['tours'][v][1:-1]: ops.append(('swap_remove_single', n, v))
+    return ops
+
 def apply_op(ex, net, s, op):
     """returns Result/plain value of the real public function"""
     k = op[0]; sref = Ref(Cell(s)); idx = lambda n: net.info[n]['idx']
@@ -137,6 +160,14 @@ def apply_op(ex, net, s, op):
     if k == 'remove_segment': return ex.call('solution::schedule::modifications::<impl Schedule>::remove_segment', [sref, seg(op[2], op[3]), vval(op[1])])
     if k in ('fit_reassign', 'override_reassign'):
         return ex.call('solution::schedule::modifications::<impl Schedule>::' + k, [sref, seg(op[1], op[2]), vval(op[3]), vval(op[4])])
+    if k == 'swap_path_exchange':
+        sw = NB.S('PathExchange', segment=seg(op[1], op[2]), provider=vval(op[3]), receiver=vval(op[4])); return ex.call('<PathExchange as Swap>::apply', [Ref(Cell(sw)), sref])
+    if k == 'swap_spawn_maint':
+        sw = NB.S('SpawnVehicleForMaintenance', maintenance_slot=idx(op[1]), vehicle=vval(op[2])); return ex.call('<SpawnVehicleForMaintenance as Swap>::apply', [Ref(Cell(sw)), sref])
+    if k == 'swap_hitch':
+        sw = NB.S('AddTripForHitchHiking', node=idx(op[1]), vehicle=vval(op[2])); return ex.call('<AddTripForHitchHiking as Swap>::apply', [Ref(Cell(sw)), sref])
+    if k == 'swap_remove_single':
+        sw = NB.S('RemoveSingleNode', node=idx(op[1]), vehicle=vval(op[2])); return ex.call('<RemoveSingleNode as Swap>::apply', [Ref(Cell(sw)), sref])
     if k == 'improve_depots': return ok(ex.call('solution::schedule::modifications::<impl Schedule>::improve_depots', [sref, NONE()]))
     if k == 'recompute_transitions_for': return ok(ex.call('solution::schedule::modifications::<impl Schedule>::recompute_transitions_for', [sref, NONE()]))
     if k == 'reassign_end_depots_greedily': return ex.call('solution::schedule::modifications::<impl Schedule>::reassign_end_depots_greedily', [sref])
@@ -158,6 +189,8 @@ def replay_op(net, op, src, dst):
     elif k == 'add_path': o.update(what='add_path_to_vehicle_tour', vehicle=op[1], nodes=[nm(n) for n in op[2]])
     elif k == 'remove_segment': o.update(what='remove_segment', vehicle=op[1], start=nm(op[2]), end=nm(op[3]))
     elif k in ('fit_reassign', 'override_reassign'): o.update(what=k, start=nm(op[1]), end=nm(op[2]), provider=op[3], receiver=op[4])
+    elif k == 'swap_path_exchange': o.update(what=k, start=nm(op[1]), end=nm(op[2]), provider=op[3], receiver=op[4])
+    elif k in ('swap_spawn_maint', 'swap_hitch', 'swap_remove_single'): o.update(what=k, node=nm(op[1]), vehicle=op[2])
     else: o.update(what=k)
     return o
 
@@ -215,6 +248,8 @@ def effects(net, op, before, after, extra_val, ex):
         out.append(('depot-only operation changes no activity', Aa == Ba and after['formations'] == before['formations'] and after['vehicles'] == before['vehicles']))
         if k == 'recompute_transitions_for': out.append(('recompute_transitions changes no tour', A == B))
         touched = set(A) | set(B)
+    elif k.startswith('swap_'):
+        return []
     elif k == 'spawn_dummy':
         d = op[1]; new = fresh(); touched = {d, new}
         out.append(('spawn_vehicle_to_replace_dummy_tour: the dummy disappears and a new vehicle serves its trips', d not in A and Aa.get(new) == Ba[d]))
@@ -266,6 +301,13 @@ def clauses_for(props, net, ex, op, before, after, extra, input_after):
     if 'C13' in props:
         if after is not None: out += [('effect: ' + c, f) for c, f in effects(net, op, before, after, extra, ex)]
         out.append(('effect: the input schedule stays untouched', input_after))
+    if 'C11' in props and op[0].startswith('swap_'):
+        if after is not None:
+            out += [('candidate: ' + c, f) for c, f in inv] + [('candidate: ' + c, f) for c, f in SS.aggregates(net, after)]
+            if 'tour_vals' in after:
+                for v, tv in sorted(after['tour_vals'].items()):
+                    out += [('candidate: tour of a scheduled vehicle: ' + c, f) for c, f in aggregates_ok(ex, net, tv, after['tours'][v])]
+        out.append(('candidate: the base schedule stays observably unchanged', input_after))
     if 'C05' in props and after is not None and op[0] == 'reassign_end_depots_consistent_with_transitions':
         out += [('repeatable: ' + c, f) for c, f in repeatable(net, after)]
         out.append(('repeatable: activities unchanged by the end-depot alignment', {v: acts_of(net, n) for v, n in after['tours'].items()} == {v: acts_of(net, n) for v, n in before['tours'].items()}))
@@ -275,8 +317,8 @@ def comparable(st):
     return {k: v for k, v in st.items() if k not in ('tour_vals', 'dummy_vals', 'unserved', 'maintenance_violation', 'costs', 'transitions')}, \
            (str(sx(st['costs'])), str(sx(st['unserved'][0])), str(sx(st['maintenance_violation'])))
 
-ALL_PROPS = ['C09', 'C10', 'C13', 'C02', 'C05', 'C01']
-PREFIX = {'C09': ('aggregate',), 'C10': ('invariant',), 'C13': ('effect',), 'C02': ('limits',), 'C05': ('repeatable',), 'C01': ('itinerary',)}
+ALL_PROPS = ['C09', 'C10', 'C13', 'C02', 'C05', 'C01', 'C11']
+PREFIX = {'C11': ('candidate',), 'C09': ('aggregate',), 'C10': ('invariant',), 'C13': ('effect',), 'C02': ('limits',), 'C05': ('repeatable',), 'C01': ('itinerary',)}
 def _cache_key(args):
     import hashlib, glob
     from .. import build
@@ -285,21 +327,21 @@ def _cache_key(args):
         h.update(open(f, 'rb').read())
     h.update(json.dumps(args, sort_keys=True, default=str).encode())
     return h.hexdigest()[:24]
-def job_script(name, tier, variant, prefix, props, lo=0, hi=200, explicit=None):
+def job_script(name, tier, variant, prefix, props, lo=0, hi=200, explicit=None, swaps=False):
     """the exploration computes the clause families of all six schedule-level properties at once; its result is cached
     (keyed by a hash of /repo's current model+solution sources, of the machinery and of the job), and each property's
     check reads its own families from it - so a changed tree is always recomputed, an unchanged one is explored once"""
     import pickle
     from .. import build
-    key = _cache_key([tier, variant, prefix, lo, hi, explicit])
+    key = _cache_key([tier, variant, prefix, lo, hi, explicit, swaps])
     d = os.path.join(build.BUILD, 'cache'); os.makedirs(d, exist_ok=True); f = os.path.join(d, key + '.pkl')
     if os.path.exists(f) and os.environ.get('VERIF_NOCACHE') != '1':
         full = pickle.load(open(f, 'rb')); full['notes'] = list(full.get('notes', [])) + ['shared exploration reused (cache key %s)' % key]
     else:
-        full = _job_script(name, tier, variant, prefix, ALL_PROPS, lo, hi, explicit)
+        full = _job_script(name, tier, variant, prefix, ALL_PROPS, lo, hi, explicit, swaps)
         if not full.get('inconclusive'):
             tmp = f + '.%d' % os.getpid(); pickle.dump(full, open(tmp, 'wb')); os.replace(tmp, f)
-    full['allow_empty'] = explicit is None
+    full['allow_empty'] = explicit is None or swaps
     return filter_result(full, props, name)
 def filter_result(full, props, name):
     pre = tuple(p for q in props for p in PREFIX[q]) + ('',)
@@ -309,10 +351,10 @@ def filter_result(full, props, name):
     r['allow_empty'] = True
     r['cex'] = [c for c in full.get('cex', []) if (c['clause'].split(':')[0] if ':' in c['clause'] else '') in pre]
     return r
-def _job_script(name, tier, variant, prefix, props, lo, hi, explicit=None):
+def _job_script(name, tier, variant, prefix, props, lo, hi, explicit=None, swaps=False):
     """all scripts prefix + [i] for i < width (menu index at the last step; aborts when the menu is exhausted on every path)"""
-    J = JobCtx(name, CRATES, extra_models=LISTED_MODELS); ex = J.ex
-    last_range = [None] if explicit is not None else range(lo, hi)
+    J = JobCtx(name, CRATES + (['solver'] if swaps else []), extra_models=LISTED_MODELS); ex = J.ex
+    last_range = [None] if (explicit is not None and not swaps) else range(lo, hi)
     for last in last_range:
         vec = list(prefix) + ([] if last is None else [last])
         reached = [0]; ctx = {}; before_paths = J.paths
@@ -322,7 +364,7 @@ def _job_script(name, tier, variant, prefix, props, lo, hi, explicit=None):
             s = ex.call('Schedule::empty', [net.arc])
             hist = []; st = read_schedule(ex, s); ctx['net'] = net; ctx['hist'] = hist
             for step, idx in enumerate(vec):
-                ops = menu(net, st, tier)
+                ops = menu(net, st, tier, swaps=(swaps and step == len(vec) - 1))
                 if isinstance(idx, (tuple, list)):
                     op = tuple(idx)
                     if op not in ops and not (op[0] in ('spawn', 'add_path') and all(x in st['tours'] for x in op[1:2] if isinstance(x, str))): raise PathAbort()    # explicit scripts stay inside the valid arguments
@@ -330,6 +372,9 @@ def _job_script(name, tier, variant, prefix, props, lo, hi, explicit=None):
                 else:
                     if idx >= len(ops): raise PathAbort()
                     op = ops[idx]
+                if op[0] == 'swap_spawn_maint':
+                    # the neighbourhood only offers slots that still have a free track
+                    ex.assume(Z(len(st['formations'].get(op[1], []))) < net.info[op[1]]['tracks'])
                 before = st; cmp_before = comparable(before); ctx['pending'] = op
                 r = apply_op(ex, net, s, op)
                 if isinstance(r, Agg) and r.variant == 0 and not r.fields: raise Unsupported('op %s returned %r' % (op, r))
@@ -386,13 +431,13 @@ def _job_script(name, tier, variant, prefix, props, lo, hi, explicit=None):
                             scenario=sc, expect=dict(native=res), native_confirmed=confirmed)
             for hi, h in enumerate(hist):
                 J.covers.add('op:' + h['op'][0] + (':ok' if h['ok'] else ':err'))
-                if explicit is None and hi < len(hist) - 1: continue       # earlier steps are the last steps of the shorter scripts
+                if (explicit is None or swaps) and hi < len(hist) - 1: continue       # earlier steps are the last steps of the shorter scripts
                 for c, f in clauses_for(props, net, ex, h['op'], h['before'], h['after'], h['extra'], h['input_after']):
                     J.prove(pc, f, c, lambda m, c=c: mk(m, c))
             if any(TS.nowhere(net, n) for h in hist if h['after'] for nodes in h['after']['tours'].values() for n in nodes): J.covers.add('overflow depot used')
             J.witness(pc, lambda m: dict(scenario=native_eval(m)[0], check='script'), limit=1)
             J.sample('script %s' % script)
-        if J.paths == before_paths and explicit is None: break      # the menu is exhausted on every path
+        if J.paths == before_paths and (explicit is None or swaps): break      # the menu is exhausted on every path
     return J.result()
 
 def comparable_native(st):
@@ -416,7 +461,7 @@ def all_jobs(tier, seed, props):
     firsts = [0, 3, 6] if tier == 'quick' else list(range(n0))
     for i in firsts:
         for lo in range(0, 70, chunk): js.append(dict(name='scripts len 2, first op %d, second %d..%d' % (i, lo, lo + chunk - 1), func='job_script', kwargs=dict(tier=tier, variant=0, prefix=[i], props=props, lo=lo, hi=lo + chunk)))
-    deep = [d for i, d in enumerate(DEEP) if i != 2] if tier == 'quick' else DEEP + DEEP2
+    deep = ([d for i, d in enumerate(DEEP) if i != 2] if tier == 'quick' else DEEP + DEEP2) + DEEP_TYPES
     for k, sc in enumerate(deep): js.append(dict(name='deep script %d' % k, func='job_script', kwargs=dict(tier=tier, variant=sc[0], prefix=sc[1], props=props, explicit=True)))
     if tier == 'thorough':
         for i in (0, 3, 4):
@@ -434,8 +479,43 @@ DEEP = [
     (0, [('spawn', 0, [4]), ('spawn', 0, [7]), ('spawn', 0, [5]), ('reassign_end_depots_consistent_with_transitions',)]),
     (0, [('spawn', 0, [4]), ('to_dummy', 'veh_0'), ('spawn_dummy', 'dummy_1', 0), ('reassign_end_depots_greedily',)]),
     (0, [('spawn', 0, [4]), ('spawn', 0, [4]), ('remove_segment', 'veh_0', 4, 4), ('recompute_transitions_for',)]),
+    (0, [('spawn', 0, [4, 5]), ('remove_segment', 'veh_0', 4, 4), ('to_dummy', 'veh_0')]),
+    (0, [('spawn', 0, [4, 5]), ('remove_segment', 'veh_0', 5, 5), ('spawn', 0, [6]), ('override_reassign', 6, 6, 'veh_2', 'veh_0')]),
+]
+# two vehicle types (variant 1: depots 0..5, trips 6,7 of type 0, trip 8 of type 1, slot 9): type compatibility across reassignments
+DEEP_TYPES = [      # variant 2: depots 0..3, trip 4 of type 0, trip 5 of type 1, slot 6
+    (2, [('spawn', 0, [4]), ('spawn', 1, [5]), ('to_dummy', 'veh_0'), ('fit_reassign', 4, 4, 'dummy_2', 'veh_1')]),
+    (2, [('spawn', 0, [4]), ('spawn', 1, [5]), ('to_dummy', 'veh_0'), ('override_reassign', 4, 4, 'dummy_2', 'veh_1')]),
+    (2, [('spawn', 0, [4]), ('spawn', 1, [5]), ('override_reassign', 4, 4, 'veh_0', 'veh_1')]),
+    (2, [('spawn', 0, [4]), ('spawn', 1, [6]), ('fit_reassign', 6, 6, 'veh_1', 'veh_0'), ('reassign_end_depots_consistent_with_transitions',)]),
 ]
 DEEP2 = [
     (1, [('spawn', 0, [6]), ('spawn', 1, [8]), ('spawn', 0, [7]), ('reassign_end_depots_consistent_with_transitions',)]),
     (1, [('spawn', 0, [6]), ('spawn', 0, [7]), ('override_reassign', 7, 7, 'veh_1', 'veh_0'), ('improve_depots',)]),
 ]
+
+# ------------------------------------------------------------------ C11: base states (explicit prefixes) followed by every candidate of the local-search neighbourhood
+SWAP_BASES = [
+    (0, [('spawn', 0, [4])]),
+    (0, [('spawn', 0, [4]), ('spawn', 0, [5])]),
+    (0, [('spawn', 0, [4]), ('spawn', 0, [7])]),
+    (0, [('spawn', 0, [4]), ('to_dummy', 'veh_0'), ('spawn', 0, [5])]),
+    (0, [('spawn', 0, [4, 5])]),
+]
+SWAP_BASES2 = [
+    (0, [('spawn', 0, [4]), ('spawn', 0, [4]), ('spawn', 0, [7])]),
+    (0, [('spawn', 0, [4, 5]), ('spawn', 0, [6])]),
+    (2, [('spawn', 0, [4]), ('spawn', 1, [5])]),
+]
+ALLK = ['swap_spawn_maint', 'swap_path_exchange', 'swap_hitch', 'swap_remove_single']
+NOMAINT = ['swap_path_exchange', 'swap_hitch', 'swap_remove_single']
+def swap_jobs(tier, seed, props):
+    js = []
+    if tier == 'quick': plan = [(0, ALLK), (1, NOMAINT), (2, ALLK), (3, NOMAINT)]
+    else: plan = [(k, ALLK) for k in range(len(SWAP_BASES + SWAP_BASES2))]
+    bases = SWAP_BASES + SWAP_BASES2
+    for k, kinds in plan:
+        variant, prefix = bases[k]
+        for lo in range(0, 40):
+            js.append(dict(name='candidate %d of base %d' % (lo, k), func='job_script', kwargs=dict(tier=tier, variant=variant, prefix=prefix, props=props, lo=lo, hi=lo + 1, explicit=True, swaps=kinds)))
+    return js
